@@ -1054,7 +1054,17 @@ static int janet_channel_pop_with_lock(JanetChannel *channel, Janet *item, int i
         return 0;
     }
     janet_assert(!janet_chan_unpack(channel, item, 0), "bad channel packing");
-    if (!janet_q_pop(&channel->write_pending, &writer, sizeof(writer))) {
+    int is_empty;
+    if (is_threaded) {
+        /* don't dereference fiber from another thread */
+        is_empty = janet_q_pop(&channel->write_pending, &writer, sizeof(writer));
+    } else {
+        /* Skip writers that have since been resumed by something else (ev/select) */
+        do {
+            is_empty = janet_q_pop(&channel->write_pending, &writer, sizeof(writer));
+        } while (!is_empty && (writer.sched_id != writer.fiber->sched_id));
+    }
+    if (!is_empty) {
         /* Pending writer */
         if (is_threaded) {
             JanetVM *vm = writer.thread;
